@@ -201,6 +201,18 @@ Theorem C04_curvature_wtilde_symmetric_partial : forall (c : @convolver ROps) no
   mget (F_wt_gen c noise K nfs objs s eps) a b = mget (F_wt_gen c noise K nfs objs s eps) b a.
 Proof. exact F_wt_symmetric. Qed.
 
+(* InversionImagingWTilde.data_vector = InversionImagingMapping.data_vector, entry by entry, for every ordered list of mappers
+   (branches _data_vector_x1_mapper and _data_vector_multi_mapper), given w_tilde_data = C^T N^-1 d.
+   _partial: [wd_is_adjoint] for w_tilde_data_imaging_from is a hypothesis; lists containing function lists
+   (_data_vector_func_list_and_mapper) are correspondence-only *)
+Theorem C04_data_vector_wtilde_eq_mapping_partial : forall (c : @convolver ROps) m K objs (d s : list R) n a,
+  forallb (@is_mapper ROps) objs = true -> length d = n -> (0 < n)%nat -> frames_ok c n ->
+  length (unmasked m) = n ->
+  wd_is_adjoint c d s (@wt_data ROps (@native ROps m d) (@native ROps m s) K (unmasked m)) n ->
+  (forall o, In o objs -> wf_obj c n o) -> (a < tp objs)%nat ->
+  nth a (@D_wt ROps c m K objs d s) 0 = nth a (@D_mapping ROps c objs d s) 0.
+Proof. exact D_wt_eq_D_mapping_mappers. Qed.
+
 (* ------------------------------------------------------------------ non-vacuity of the hypothesis sets *)
 (* hypotheses of C04_curvature_is_BT_Ninv_B: a 2x2 signed matrix, two different noise values, one unregularized parameter *)
 Example ex_curv_hyps :
@@ -285,3 +297,4 @@ Print Assumptions C04_no_regularization_index_list.
 Print Assumptions C04_data_vector_mapping_blocks.
 Print Assumptions C04_wtilde_data_vector_block_partial.
 Print Assumptions C04_curvature_wtilde_symmetric_partial.
+Print Assumptions C04_data_vector_wtilde_eq_mapping_partial.
